@@ -199,11 +199,23 @@ pub fn is_primitive(expr: &BodyForm) -> bool {
     )
 }
 
+// The head of a synthesized primitive call.  f, r and c are given by opcode:
+// a user function may carry one of those names, and a head given by name would
+// then call it instead of the primitive.
+fn operator_head(l: &Srcloc, op: &str) -> SExp {
+    match op {
+        "c" => SExp::Atom(l.clone(), vec![4]),
+        "f" => SExp::Atom(l.clone(), vec![5]),
+        "r" => SExp::Atom(l.clone(), vec![6]),
+        _ => SExp::atom_from_string(l.clone(), op),
+    }
+}
+
 fn make_operator1(l: &Srcloc, op: String, arg: Rc<BodyForm>) -> BodyForm {
     BodyForm::Call(
         l.clone(),
         vec![
-            Rc::new(BodyForm::Value(SExp::atom_from_string(l.clone(), &op))),
+            Rc::new(BodyForm::Value(operator_head(l, &op))),
             arg,
         ],
         None,
@@ -214,7 +226,7 @@ fn make_operator2(l: &Srcloc, op: String, arg1: Rc<BodyForm>, arg2: Rc<BodyForm>
     BodyForm::Call(
         l.clone(),
         vec![
-            Rc::new(BodyForm::Value(SExp::atom_from_string(l.clone(), &op))),
+            Rc::new(BodyForm::Value(operator_head(l, &op))),
             arg1,
             arg2,
         ],
